@@ -180,6 +180,15 @@ def r_block_coordinates(ctx):
         tag = "%s,%s" % ("drop" if drop else "keep", "center" if center else "reduce")
         aggs = [e.data[0] for e in p.events if e.kind == "call" and e.data[0][1][0] == "attr" and e.data[0][1][2] in ("aggregate", "agg")]
         if len(aggs) != 1:
+            # positive contradiction: no aggregate(self.reduction) on a path that KEEPS the extra coordinates (drop_coords False), the grouped
+            # table being reduced with a fixed pandas reduction instead - the extra coordinates are then not reduced with the configured
+            # reduction (on a path that drops them and replaces the horizontal ones by the block centres nothing of the reduction survives)
+            fixed = [e.data[0] for e in p.events if e.kind == "call" and e.data[0][1][0] == "attr" and e.data[0][1][2] in ("mean", "median", "first", "last", "min", "max", "sum")
+                     and any(x[0] == "call" and x[1][0] == "attr" and x[1][2] == "groupby" for x in walk(e.data[0][1][1]) if isinstance(x, tuple) and x)]
+            if not aggs and fixed and drop is False:
+                ctx.add("R4", "%s|one-aggregate|%s" % (qn, tag), "VIOLATED", "the coordinates that are kept (extra coordinates, drop_coords=False) are reduced with the fixed groupby().%s() "
+                        "instead of aggregate(self.reduction)" % fixed[0][1][2], fn=qn, line=p.line)
+                continue
             ctx.add("R4", "%s|one-aggregate|%s" % (qn, tag), "UNDECIDED", "expected one aggregate call", fn=qn)
             continue
         frame, by, gkw, red = groupby_info(aggs[0])
